@@ -110,7 +110,7 @@ pub fn run_vec_history<V: VecLike>(rng: &mut Rng, cfg: &HistCfg) -> VecOutcome {
         if cfg.check_pages
             && !V::RAW
             && V::per_page() > 0
-            && matches!(op, VOp::Write | VOp::Flush | VOp::StampedWrite(_) | VOp::Commit(_) | VOp::Reimport)
+            && matches!(op, VOp::Write | VOp::Flush | VOp::StampedWrite(_) | VOp::Commit(_) | VOp::Reimport | VOp::ReimportKeep(_))
         {
             if let Err(m) = crate::c_codec::check_page_index::<V>(&ex) {
                 out.failed_at = Some((out.ops.len() - 1, m));
@@ -219,10 +219,10 @@ pub struct VecCampaign {
 fn in_rollback_domain(ops: &[VOp]) -> bool {
     let mut committed = true;
     for op in ops {
-        if matches!(op, VOp::Rollback | VOp::RollbackBefore(_) | VOp::Reimport) && !committed {
+        if matches!(op, VOp::Rollback | VOp::RollbackBefore(_) | VOp::Reimport | VOp::ReimportKeep(_)) && !committed {
             return false;
         }
-        committed = matches!(op, VOp::Commit(_) | VOp::Rollback | VOp::RollbackBefore(_) | VOp::Reimport);
+        committed = matches!(op, VOp::Commit(_) | VOp::Rollback | VOp::RollbackBefore(_) | VOp::Reimport | VOp::ReimportKeep(_));
     }
     true
 }
@@ -888,6 +888,8 @@ pub fn check_c16(ctx: &Ctx) -> i32 {
         (vec![VOp::Push(3), VOp::Commit(1), VOp::Rollback, VOp::Push(1), VOp::Commit(2)], HistCfg { keep: 0, ..base.clone() }),
         // abandoned future: re-commit a used stamp / a higher stamp after rollback
         (vec![VOp::Push(2), VOp::Commit(1), VOp::Push(2), VOp::Commit(2), VOp::Push(2), VOp::Commit(3), VOp::RollbackBefore(2), VOp::Push(1), VOp::Commit(2), VOp::Push(1), VOp::Commit(4), VOp::Rollback, VOp::Rollback, VOp::Rollback, VOp::Rollback], HistCfg { keep: 5, ..base.clone() }),
+        // retention lowered between sessions: the surplus records go at the next commit
+        (vec![VOp::Push(2), VOp::Commit(1), VOp::Push(2), VOp::Commit(2), VOp::Push(2), VOp::Commit(3), VOp::Push(2), VOp::Commit(4), VOp::Push(2), VOp::Commit(5), VOp::ReimportKeep(2), VOp::Push(1), VOp::Commit(6), VOp::Push(1), VOp::Commit(7), VOp::Rollback, VOp::Rollback, VOp::Rollback], HistCfg { keep: 5, ..base.clone() }),
         // records with every section populated (truncation + pushes + updates + holes)
         (vec![VOp::Push(12), VOp::Commit(1), VOp::Update(2), VOp::Delete(4), VOp::Truncate(9), VOp::Push(2), VOp::Commit(2), VOp::Fill, VOp::Update(1), VOp::Truncate(5), VOp::Push(3), VOp::Commit(3), VOp::Rollback, VOp::Rollback], HistCfg { keep: 3, ..base.clone() }),
     ];
